@@ -22,7 +22,7 @@ MOD = "mc.props.C15"
 ACTIONS = [
     "full", "mesh_only", "part_only", "sink_only", "value_pred", "box", "level_le_2", "cpu_list_2",
     "sortby_part", "sortby_sink", "sortby_mesh", "refused_sortby_with_level_cap", "refused_cpu_list_with_box", "mesh_vars", "part_vars", "amr_vars_only",
-    "hydro_var_only", "box_far_corner", "groups_off_mesh", "refused_predicate_raises", "grav_var_only",
+    "hydro_var_only", "slab_y", "slab_x", "box_far_corner", "groups_off_mesh", "refused_predicate_raises", "grav_var_only", "slab_z",
 ]
 
 
@@ -76,6 +76,10 @@ def action_kwargs(name, out):
         q = 0.74 * box
         return {"select": {"mesh": {"position_x": lambda x: x > q * cm, "position_y": lambda y: y > q * cm,
                                     "position_z": lambda z: z > q * cm}}}
+    # a predicate on one axis only (a slab): whatever earlier calls selected on the other axes must have no influence
+    if name in ("slab_x", "slab_y", "slab_z"):
+        q = 0.74 * box
+        return {"select": {"mesh": {"position_" + name[-1]: lambda x: x > q * cm}}}
     if name == "level_le_2":
         return {"select": {"mesh": {"level": lambda l: l <= 2}}}
     if name == "cpu_list_2":
@@ -134,21 +138,38 @@ class Spec:
 
     def fresh_result(self, action):
         key = (os.getpid(), self.variant, action)
+        if key not in Spec._fresh and self.params.get("refs_file") and os.path.exists(self.params["refs_file"]):
+            # references computed by run(), each in a process of its own that had executed nothing else (a reference made in this
+            # process could itself be affected by state the library keeps between calls)
+            import pickle
+
+            with open(self.params["refs_file"], "rb") as f:
+                for (variant, act), ref in pickle.load(f).items():
+                    Spec._fresh[(os.getpid(), variant, act)] = ref
         if key not in Spec._fresh:
+            from ..runner import run_in_environment
+
+            acc, err = run_in_environment(MOD, "fresh_action_acc", {"variant": self.variant, "action": action})
+            if acc is not None and acc.samples:
+                Spec._fresh[key] = acc.samples[0]
+        if key not in Spec._fresh:
+            Spec._fresh[key] = self._compute_fresh(action)
+        return Spec._fresh[key]
+
+    def _compute_fresh(self, action):
+        if True:
             ds = _load.new_dataset(self.dir, self.out.nout)
             try:
                 text = _load.call_load(ds, **action_kwargs(action, self.out))
             except Exception as e:
-                Spec._fresh[key] = {"raised": type(e).__name__}
-                return Spec._fresh[key]
-            Spec._fresh[key] = {
+                return {"raised": type(e).__name__}
+            return {
                 "groups": C13.snapshot(ds),
                 "ncells": int(ds.meta["ncells"]),
                 "nparticles": int(ds.meta["nparticles"]),
                 "nfiles": _load.processed_files(text),
                 "lmax": int(ds.meta["lmax"]),
             }
-        return Spec._fresh[key]
 
     def fresh(self):
         ds = _load.new_dataset(self.dir, self.out.nout)
@@ -248,13 +269,37 @@ def make_spec(name, params):
     return Spec(params)
 
 
+def fresh_action(payload):
+    """Worker (a process that has done nothing else): what a fresh dataset returns for one action."""
+    spec = Spec({"actions": [payload["action"]], "variant": payload["variant"]})
+    Spec._fresh.pop((os.getpid(), payload["variant"], payload["action"]), None)
+    spec.params = {"actions": [payload["action"]], "variant": payload["variant"], "no_subprocess": True}
+    return spec._compute_fresh(payload["action"])
+
+
+def fresh_action_acc(payload):
+    from ..runner import Acc
+
+    acc = Acc()
+    acc.samples.append(fresh_action(payload))
+    return acc
+
+
 def run(ctx):
-    acts = ACTIONS if ctx.thorough else ACTIONS[:17]
+    acts = ACTIONS if ctx.thorough else ACTIONS[:19]
     depth = 4 if ctx.thorough else 3
     und = 3 if ctx.thorough else 2
     covs, accs = [], []
-    for variant in ([0, 1] if ctx.thorough else [0]):
-        cov, acc = history.explore(ctx.pool, MOD, "loads", {"actions": acts, "variant": variant}, depth, und)
+    import pickle
+
+    variants = [0, 1] if ctx.thorough else [0]
+    pairs = [(v, a) for v in variants for a in acts]
+    refs = dict(zip(pairs, ctx.pool.map_fresh(MOD, "fresh_action", [{"variant": v, "action": a} for v, a in pairs])))
+    refs_file = os.path.join(scratch_dir(), "c15-references.pickle")
+    with open(refs_file, "wb") as f:
+        pickle.dump(refs, f)
+    for variant in variants:
+        cov, acc = history.explore(ctx.pool, MOD, "loads", {"actions": acts, "variant": variant, "refs_file": refs_file}, depth, und)
         covs.append(cov)
         accs.append(acc)
     from ..runner import Acc
